@@ -26,10 +26,8 @@ static void on_exit_handler() {
     TaskCtx *t = g_task;
     if (g_res && t && t->escape) { fprintf(g_res, "X library called exit() inside an API call op:%s\n", g_cur_op_kind); fflush(g_res); }
 }
-static void on_sanitizer_death() { // async-signal-safe enough: one write()
-    char b[96]; int n = snprintf(b, sizeof b, "X sanitizer-death op:%s\n", g_cur_op_kind);
-    if (g_resfd >= 0 && n > 0) { ssize_t w = write(g_resfd, b, (size_t)n); (void)w; }
-}
+extern int g_death_fd;                 // sched_nosan.cpp: the death callback lives in the un-instrumented TU
+extern "C" void sim_death_callback(void);
 
 static std::string outcome_json(const RunOutcome &o, const std::string &casepath) {
     std::ostringstream s;
@@ -73,7 +71,8 @@ int main(int argc, char **argv) {
     int resfd = dup(1); g_res = fdopen(resfd, "w"); g_resfd = resfd;
     atexit(on_exit_handler);
 #ifdef HAVE_SAN
-    __sanitizer_set_death_callback(on_sanitizer_death);
+    g_death_fd = resfd;
+    __sanitizer_set_death_callback(sim_death_callback);
 #endif
     int errfd = dup(2);
     if (!getenv("SIM_KEEP_STDIO")) { freopen("/dev/null", "w", stdout); freopen("/dev/null", "w", stderr); }
